@@ -12,8 +12,8 @@ import (
 )
 
 func init() {
-	register("C13", "Structural clauses of cp -a preservation, decided on all paths of the copier: metadata (owner, mode, times, then xattrs) is applied after the entry's content and, for directories, after the children; inside copyFileInfo the owner change precedes the mode change which precedes the timestamps, the mode change is skipped for symlinks, the owner is the Chowner's answer for the source uid/gid and the mode comes from the source, the symbolic set or the octal option; timestamps use the option or the source's atime/mtime without following links; regular files consult the per-copier inode map and link on a hit; xattrs use only the no-follow calls and route every error through the handler; created parents are chowned, timed and recorded; every non-directory written passes the single change notification. A copied device node gets the source node's device number; no error result in package copy is left unread. Does not decide tree equality, numeric mode semantics or hard-link identity at run time.", runC13)
-	register("C14", "Structural clauses of copy containment (package copy, every non-windows build): every filesystem call of the package is classified and a symlink-following call occurs only at tabled sites whose precondition is re-checked (root-resolved arguments, Lstat-classified directories, a target emptied first, a not-symlink guard); UtimesNanoAt carries AT_SYMLINK_NOFOLLOW; every path Copy hands on derives from fs.RootPath / rootPath; inspection of source and target is Lstat-based; the target is emptied (checked) before anything is created on the non-directory arms. rootPath anchors its argument at the root ('/') before splitting it. Does not decide races, fs.RootPath itself or wildcard expansion.", runC14)
+	register("C13", "Structural clauses of cp -a preservation, decided on all paths of the copier: metadata (owner, mode, times, then xattrs) is applied after the entry's content and, for directories, after the children; inside copyFileInfo the owner change precedes the mode change which precedes the timestamps, the mode change is skipped for symlinks, the owner is the Chowner's answer for the source uid/gid and the mode comes from the source, the symbolic set or the octal option; timestamps use the option or the source's atime/mtime without following links; regular files consult the per-copier inode map and link on a hit; xattrs use only the no-follow calls and route every error through the handler; created parents are chowned, timed and recorded; every non-directory written passes the single change notification. A copied device node gets the source node's device number; no error result in package copy is left unread, and with a non-nil error from a filesystem, path-resolution, pattern or copy call, or from a function of the package, no success return of the caller is reachable (not-exist tolerances tabled and decided with the predicate pinned false; the copy_file_range fallback only through the userspace copy; errors handed to the caller's xattr handler). Does not decide tree equality, numeric mode semantics or hard-link identity at run time.", runC13)
+	register("C14", "Structural clauses of copy containment (package copy, every non-windows build): every filesystem call of the package is classified and a symlink-following call occurs only at tabled sites whose precondition is re-checked (root-resolved arguments, Lstat-classified directories, a target emptied first, a not-symlink guard); UtimesNanoAt carries AT_SYMLINK_NOFOLLOW; every path Copy hands on derives from fs.RootPath / rootPath; inspection of source and target is Lstat-based; the target is emptied (checked) before anything is created on the non-directory arms. rootPath anchors its argument at the root ('/') before splitting it; the first argument of every root resolution in the package is a root of the enclosing function. Does not decide races, fs.RootPath itself or wildcard expansion.", runC14)
 	register("C15", "The one clause of the overlay rules with a structural form: the only destructive calls of package copy are os.Remove behind an Lstat-says-not-a-directory test and os.RemoveAll behind always-replace && target exists && not (both directories); a directory meeting a non-directory returns an error and touches nothing. Destination path selection, merge semantics, wildcards, trailing separators and idempotence are value-level and declined. MkdirAll cannot succeed on an existing non-directory.", runC15)
 }
 
@@ -31,6 +31,122 @@ func runC13(c *Ctx) {
 		r13_8(c, "R13.8")
 	}
 	errDisciplineAll(c, "R13.9", 1, "copy")
+	r13_10(c, "R13.10")
+}
+
+// copy-package call sites whose error is accepted by a predicate, or not decided
+var r1310Exceptions = map[string]tolerated{
+	"copy.(*copier).copy/os.Lstat#2":                           {why: "a target that does not exist yet is created", preds: []string{"os.IsNotExist", "errors.Is", "github.com/pkg/errors.Is"}},
+	"copy.(*copier).prepareTargetDir/os.Stat":                  {why: "a destination that does not exist yet is created", preds: []string{"os.IsNotExist", "errors.Is", "github.com/pkg/errors.Is"}},
+	"copy.copyDirectoryOnly/os.Lstat":                          {why: "a directory that does not exist yet is created", preds: []string{"os.IsNotExist", "errors.Is", "github.com/pkg/errors.Is"}},
+	"copy.ensureEmptyFileTarget/os.Lstat":                      {why: "nothing to replace when the target does not exist", preds: []string{"os.IsNotExist", "errors.Is", "github.com/pkg/errors.Is"}},
+	"copy.MkdirAll/os.Stat":                                    {why: "forked os.MkdirAll: any failure of the fast-path stat leads to the slow path, whose Mkdir reports the error", preds: nil},
+	"copy.MkdirAll/os.Lstat#1":                                 {why: "forked os.MkdirAll: only a successful lstat of a directory short-cuts; otherwise Mkdir decides", preds: nil},
+	"copy.MkdirAll/os.Lstat#2":                                 {why: "forked os.MkdirAll: double check after a failed Mkdir (\"foo/.\"); the Mkdir error is returned unless the directory exists", preds: nil},
+	"copy.MkdirAll/os.Mkdir":                                   {why: "forked os.MkdirAll: the error is returned unless the directory turns out to exist (\"foo/.\", concurrent creator)", preds: nil},
+	"copy.copyFile/golang.org/x/sys/unix.CopyFileRange":        {why: "the errnos the Go runtime also falls back on lead, on the first chunk, to a userspace copy", via: []string{"io.CopyBuffer", "io.Copy"}},
+	"copy.copyFileContent/golang.org/x/sys/unix.CopyFileRange": {why: "the errnos the Go runtime also falls back on lead, on the first chunk, to a userspace copy", via: []string{"io.CopyBuffer", "io.Copy"}},
+	"copy.copyFile/golang.org/x/sys/unix.Clonefileat":          {why: "darwin: a failed clone falls back to copying the content", via: []string{"copy.copyFileContent", "io.CopyBuffer", "io.Copy"}},
+	"copy.resolveWildcards$1/path/filepath.Match":              {why: "a malformed pattern matches nothing (ErrBadPattern is the only error)", preds: nil},
+}
+
+// R13.10: no error of a filesystem call or of a function of the package
+// itself is survived (checked, then followed by a success return).
+func r13_10(c *Ctx, rule string) {
+	c.R.Rule(rule, "package copy: with a non-nil error from a filesystem call, a path-resolution or pattern call, or a function of the package itself, no success return of the calling function is reachable (tolerance predicates tabled)")
+	var fns []*ssa.Function
+	for _, fn := range transferFuncs(c, "copy") {
+		fns = append(fns, fn)
+	}
+	lib := map[string]bool{
+		"github.com/containerd/continuity/fs.RootPath": true, "github.com/moby/patternmatcher.New": true,
+		"github.com/tonistiigi/dchapes-mode.ParseWithUmask": true, "path/filepath.Rel": true, "path/filepath.Match": true,
+		"(*github.com/moby/patternmatcher.PatternMatcher).MatchesUsingParentResults": true,
+		"golang.org/x/sys/unix.CopyFileRange":                                        true, "io.CopyBuffer": true, "io.Copy": true, "(*os.File).Stat": true,
+		"golang.org/x/sys/unix.Mknod": true, "golang.org/x/sys/unix.UtimesNanoAt": true, "golang.org/x/sys/unix.Lchown": true,
+	}
+	fsSite := map[ssa.CallInstruction]bool{}
+	for _, call := range fsCallsIn(c, fns) {
+		fsSite[call] = true
+	}
+	n := 0
+	for _, fn := range fns {
+		for _, call := range eng.Calls(fn) {
+			name := c.P.CalleeName(call)
+			own := false
+			if f := call.Common().StaticCallee(); f != nil && fnPkgShort(c, f) == "copy" {
+				own = true
+			}
+			if !own && !lib[name] && !fsSite[call] {
+				continue
+			}
+			if _, _, has := c.errValueOf(call); !has {
+				continue
+			}
+			if strings.HasSuffix(name, ").Close") {
+				continue
+			}
+			switch call.(type) {
+			case *ssa.Defer, *ssa.Go:
+				continue
+			}
+			t, ok := tabled(c, r1310Exceptions, call)
+			if !ok && own {
+				// a one-line wrapper of a library call (a test seam) stands
+				// for that call
+				if lib := forwardedLibCall(c, call.Common().StaticCallee()); lib != "" {
+					for _, top := range c.tops(call) {
+						for _, k := range []string{c.name(top) + "/" + lib, fmt.Sprintf("%s/%s#%d", c.name(top), lib, c.ordinalIn(top, call))} {
+							if tt, has := r1310Exceptions[k]; has {
+								t, ok = tt, true
+							}
+						}
+					}
+				}
+			}
+			if ok {
+				switch {
+				case len(t.via) > 0:
+					n++
+					c.ObErrCheckedVia(rule, call, t.why, t.via...)
+				case len(t.preds) > 0:
+					n++
+					c.ObErrCheckedTolerating(rule, call, t.why, t.preds...)
+				default:
+					c.R.OK(rule, c.siteName(call)+"/tabled", c.pos(call), "tabled: "+t.why)
+				}
+				continue
+			}
+			n++
+			// an error handed to a caller-supplied handler whose verdict is
+			// returned (XAttrErrorHandler) is not swallowed
+			if okc, _, at, und := c.ErrChecked(call); !okc && !und {
+				if r, isR := at.(*ssa.Return); isR && len(r.Results) > 0 {
+					if hc, isC := r.Results[len(r.Results)-1].(*ssa.Call); isC && hc.Common().StaticCallee() == nil {
+						handed := false
+						for _, a := range hc.Call.Args {
+							if c.DerivesFrom(a, func(v ssa.Value) bool {
+								if v == call.Value() {
+									return true
+								}
+								ex, isE := v.(*ssa.Extract)
+								return isE && ex.Tuple == call.Value()
+							}, 6) {
+								handed = true
+							}
+						}
+						if handed {
+							c.R.CallSites++
+							c.R.OK(rule, c.siteName(call)+"/handed-over", c.pos(call), "the error is handed to a caller-supplied handler whose verdict is returned")
+							continue
+						}
+					}
+				}
+			}
+			c.ObErrChecked(rule, call)
+		}
+	}
+	c.R.Floor(rule, "must-check call sites in package copy", n, 40)
 }
 
 // R13.8: a copied device node keeps its device number.
@@ -1026,6 +1142,25 @@ func r14_2(c *Ctx, rule string) {
 		c.ObErrChecked(rule+"/checked", call)
 	}
 	c.R.Floor(rule, "root resolutions in Copy", len(c.P.CallsTo(cp, rp, "copy.rootPath")), 3)
+	// everywhere in the package: what is resolved against is a root (the
+	// root parameter of the enclosing function or the copier's root), never
+	// the path that is to be confined
+	for _, fn := range transferFuncs(c, "copy") {
+		for _, call := range c.P.CallsTo(fn, rp, "copy.rootPath") {
+			if call.Parent() != fn {
+				continue
+			}
+			a0 := eng.Strip(call.Common().Args[0])
+			ok := isFieldLoad(a0, "copy.copier.root")
+			if p, isP := a0.(*ssa.Parameter); isP {
+				switch c.P.ParamName(p) {
+				case "root", "srcRoot", "dstRoot":
+					ok = true
+				}
+			}
+			c.R.Check(ok, rule, c.siteName(call)+"/against-a-root", c.pos(call), "resolved against a root", "the first argument of a root resolution is not a root of the enclosing function (arguments swapped?): the path is confined to itself, not to the root")
+		}
+	}
 	// rootPath: resolves with fs.RootPath (whole path, or the parent when links are not followed)
 	r := c.Fn(rule, "copy.rootPath")
 	if r != nil {
@@ -1231,4 +1366,26 @@ func r15_1(c *Ctx, rule string) {
 		c.R.Check(!und && hit == nil && len(as) >= 2, rule, c.name(cdo)+"/non-directory-is-error", c.P.Pos(cdo.Pos()), "a non-directory in the way of a directory is an error", "copyDirectoryOnly succeeds although a non-directory occupies the destination")
 		c.ObUnreachable(rule, c.name(cdo)+"/non-directory-untouched", cdo, as, c.callPred(append([]string{"os.Mkdir", "os.Chmod"}, destructiveCalls...)...), "creating, removing or re-moding", "a non-directory occupies the destination")
 	}
+}
+
+// forwardedLibCall: f consists of one call to a function outside the module
+// whose results it returns; the name of that function, or "".
+func forwardedLibCall(c *Ctx, f *ssa.Function) string {
+	if f == nil || len(f.Blocks) != 1 {
+		return ""
+	}
+	name := ""
+	n := 0
+	for _, in := range f.Blocks[0].Instrs {
+		if call, ok := in.(ssa.CallInstruction); ok {
+			n++
+			if g := call.Common().StaticCallee(); g != nil && !c.P.InModule(g) {
+				name = c.P.CalleeName(call)
+			}
+		}
+	}
+	if n != 1 {
+		return ""
+	}
+	return name
 }
